@@ -7,7 +7,16 @@ struct C { unsigned long a : 1, b : 62, c : 1; unsigned long d : 63; int e : 17;
 union U { unsigned a : 4; int b : 12; unsigned long c : 50; unsigned char raw[8]; };
 struct A ga = { -4, 31, -1, 0x7fffff, -9, 1, 1, -8, 511, -549755813888L, 0x1ffffffffUL, -1, 0xffffffffu, -1073741824 };
 static void dump(void *p, int n) { unsigned char *c = p; int i; for (i = 0; i < n; ++i) printf("%02x", c[i]); printf("\n"); }
+/* the promoted type of a bit-field follows from its width alone, wherever it sits in its unit */
+struct HI { unsigned a : 8; unsigned b : 24; unsigned long c : 40; unsigned long d : 24; unsigned e : 1; unsigned f : 31; unsigned long g : 33; unsigned long h : 31; } hi = { 1, 1, 1, 1, 1, 1, 1, 1 };
+static void promo(volatile struct HI *p) {
+	printf("promo %d %d %d %d %d %d %d %d\n", p->b - 2 < 0, p->d - 2 < 0, p->f - 2 < 0, p->h - 2 < 0, p->e - 2 < 0, p->a - 2 < 0, p->c - 2 < 0, p->g - 2 < 0);
+	printf("promo %d %d %d %d\n", (p->b - 3) / 2, (p->d - 3) / 2, (p->f - 3) / 2, (p->h - 3) / 2);
+	printf("promo %d %d %d %d %d\n", (int)sizeof(p->b + 0), (int)sizeof(p->d + 0), (int)sizeof(p->c + 0), (int)sizeof(p->g + 0), (int)sizeof(p->h + 0));
+	printf("promo %d %d %d\n", -p->b < 0, -p->d < 0, ~p->f < 0);
+}
 int main(void) {
+	promo(&hi);
 	struct A a = { 3, 17, 0, 12345, 77, 0, 1, 7, 300, 549755813887L, 0x155555555UL, 0x7fffffffffffffffLL, 123, 1073741823 };
 	struct B b = { 'x', -64, 5, -4096, 200 };
 	struct C c = { 1, 0x3fffffffffffffffUL, 1, 0x7fffffffffffffffUL, -65536 };
